@@ -757,6 +757,8 @@ class Translator:
             return np.einsum(expr, *[as_arr(x) for x in args[1:]])
         if last in ("matmul", "dot"):
             return np.dot(as_arr(args[0]), as_arr(args[1]))
+        if last == "diag":
+            return np.diag(a0) + sp.Integer(0)
         if last == "transpose":
             perm = kwargs.get("perm", args[1] if len(args) > 1 else None)
             return np.transpose(a0, [_pyint(x) for x in perm] if perm is not None else None)
@@ -981,8 +983,16 @@ def equal(a, b, seed=0, symbols_domain=None):
     for _ in range(6):
         pt = {}
         for x in syms:
-            lo, hi = (symbols_domain or {}).get(x.name, (sp.Rational(1, 2), sp.Rational(3)))
-            pt[x] = lo + (hi - lo) * sp.Rational(rnd.randint(1, 997), 1000)
+            dom = (symbols_domain or {}).get(x.name)
+            if dom is None:
+                lo, hi = sp.Rational(1, 2), sp.Rational(3)
+                val = lo + (hi - lo) * sp.Rational(rnd.randint(1, 997), 1000)
+                if not x.is_positive and rnd.random() < 0.5:
+                    val = -val  # symbols not declared positive are probed on both signs
+            else:
+                lo, hi = dom
+                val = lo + (hi - lo) * sp.Rational(rnd.randint(1, 997), 1000)
+            pt[x] = val
         try:
             va = sp.N(a.subs(pt), 50)
             vb = sp.N(b.subs(pt), 50)
